@@ -416,17 +416,27 @@ func (p *prs) _onBounds(r any, begin, end Token) {
 // stdin: {"<pkg>": {"Limit": n, "Inputs": [[tok ids]...]}} ; stdout: {"<pkg>": [Result...]}.
 func ParserDriverMain(pkgs []string) string {
 	var d strings.Builder
-	d.WriteString("package main\n\nimport (\n\t\"encoding/json\"\n\t\"os\"\n")
+	d.WriteString("package main\n\nimport (\n\t\"encoding/json\"\n\t\"os\"\n\t\"time\"\n")
 	for _, p := range pkgs {
 		fmt.Fprintf(&d, "\t%s \"verifscratch/%s\"\n", p, p)
 	}
-	d.WriteString(")\n\ntype job struct {\n\tInputs [][]int\n\tLimits []int\n}\n\nfunc main() {\n\tvar in map[string]job\n\tif err := json.NewDecoder(os.Stdin).Decode(&in); err != nil {\n\t\tpanic(err)\n\t}\n\tout := map[string]any{}\n")
+	// A parse that spins inside the generated runtime calls neither an action nor ReadToken, so
+	// the step bounds cannot stop it: every parse also runs under a wall-clock guard that is six
+	// orders of magnitude above a normal run. A guarded-out parse is reported as Panic "TIMEOUT"
+	// (pbatch confirms it in a process of its own before a check sees it); its goroutine keeps
+	// spinning, so the remaining inputs of that package - and, after four such parses, of all
+	// packages - are marked SKIPPED.
+	d.WriteString(")\n\ntype job struct {\n\tInputs [][]int\n\tLimits []int\n}\n\nvar timeouts int\n\n// guard: ok=false when the parse was guarded out\nfunc guard(f func() any) (any, bool) {\n\tch := make(chan any, 1)\n\tgo func() { ch <- f() }()\n\tselect {\n\tcase r := <-ch:\n\t\treturn r, true\n\tcase <-time.After(" + GuardSeconds + " * time.Second):\n\t\ttimeouts++\n\t\treturn nil, false\n\t}\n}\n\nfunc main() {\n\tvar in map[string]job\n\tif err := json.NewDecoder(os.Stdin).Decode(&in); err != nil {\n\t\tpanic(err)\n\t}\n\tout := map[string]any{}\n")
 	for _, p := range pkgs {
-		fmt.Fprintf(&d, "\tif j, ok := in[%q]; ok {\n\t\trs := []%s.Result{}\n\t\tfor i, w := range j.Inputs {\n\t\t\trs = append(rs, %s.Run(w, j.Limits[i]))\n\t\t}\n\t\tout[%q] = rs\n\t}\n", p, p, p, p)
+		fmt.Fprintf(&d, "\tif j, ok := in[%q]; ok {\n\t\trs := []any{}\n\t\thung := false\n\t\tfor i, w := range j.Inputs {\n\t\t\tif hung || timeouts >= 4 {\n\t\t\t\trs = append(rs, %s.Result{Panic: \"SKIPPED\"})\n\t\t\t\tcontinue\n\t\t\t}\n\t\t\tw, lim := w, j.Limits[i]\n\t\t\tr, ok := guard(func() any { return %s.Run(w, lim) })\n\t\t\tif !ok {\n\t\t\t\thung = true\n\t\t\t\tr = %s.Result{Panic: \"TIMEOUT\"}\n\t\t\t}\n\t\t\trs = append(rs, r)\n\t\t}\n\t\tout[%q] = rs\n\t}\n", p, p, p, p, p)
 	}
-	d.WriteString("\tjson.NewEncoder(os.Stdout).Encode(out)\n}\n")
+	d.WriteString("\tjson.NewEncoder(os.Stdout).Encode(out)\n\tos.Exit(0)\n}\n")
 	return d.String()
 }
+
+// GuardSeconds is the wall-clock guard per parse in the driver (a string because it is pasted
+// into the driver's source).
+var GuardSeconds = "10"
 
 // Result mirrors the generated package's Result.
 type Result struct {
@@ -441,6 +451,8 @@ type Result struct {
 	Tree     string
 	Front    []int
 	Log      []string
+	// Skipped: not run (another input of the same package did not terminate); checks ignore it.
+	Skipped bool `json:",omitempty"`
 }
 
 // ---------------------------------------------------------------------------
